@@ -74,21 +74,66 @@ func (it *item) enc() []byte {
 	return append(head(0xc0, len(p), it.long), p...)
 }
 
-// parse a *valid* encoding produced by the real encoder (nil on anything unexpected)
+// splitLoose reads one value with a canonical length header but without the "single byte below 0x80 must be bare"
+// rule (rlp.Stream.Raw accepts such strings inside reserved / extension lists, rlp.Split does not).
+func splitLoose(b []byte) (list bool, content, rest []byte, ok bool) {
+	if len(b) == 0 {
+		return
+	}
+	x := b[0]
+	var base byte
+	switch {
+	case x < 0x80:
+		return false, b[:1], b[1:], true
+	case x < 0xc0:
+		base = 0x80
+	default:
+		base, list = 0xc0, true
+	}
+	n, hl := int(x-base), 1
+	if n > 55 {
+		ll := n - 55
+		if len(b) < 1+ll || b[1] == 0 {
+			return
+		}
+		n = 0
+		for _, y := range b[1 : 1+ll] {
+			if n > 1<<40 {
+				return
+			}
+			n = n<<8 | int(y)
+		}
+		if n < 56 {
+			return
+		}
+		hl = 1 + ll
+	}
+	if len(b) < hl+n {
+		return
+	}
+	return list, b[hl : hl+n], b[hl+n:], true
+}
+
+// parse an encoding into a tree (nil on anything unexpected); non-canonical one-byte strings are kept verbatim
 func parseItem(b []byte) (*item, []byte) {
-	k, content, rest, err := rlp.Split(b)
-	if err != nil {
+	list, content, rest, ok := splitLoose(b)
+	if !ok {
 		return nil, nil
 	}
-	if k != rlp.List {
-		return S(append([]byte{}, content...)), rest
+	if !list {
+		it := S(append([]byte{}, content...))
+		if len(content) == 1 && content[0] < 0x80 && b[0] == 0x81 {
+			it.raw = []byte{0x81, content[0]}
+		}
+		return it, rest
 	}
 	it := L()
 	for len(content) > 0 {
 		var kid *item
 		kid, content = parseItem(content)
 		if kid == nil {
-			return nil, nil
+			// a list whose content is not a sequence of values (possible inside raw values): keep it verbatim
+			return RawItem(append([]byte{}, b[:len(b)-len(rest)]...)), rest
 		}
 		it.kids = append(it.kids, kid)
 	}
